@@ -27,6 +27,8 @@ CLAIMED = {
          "TLA+ exhaustive decision-table enumeration + one real session run per TLC row"),
  "C18": ("model_checking", "6 C18", "TLC: PolicyMonitor.tla (faithful transcription of scan_policies) with the ghost of successfully loaded contents; invariant C18 over all file-event sequences within the bounds (negative control DROP_STALE=FALSE violates it); every transition of a smaller graph executed on a real PolicyDirectoryMonitor over a real directory with controlled mtimes; random long event sequences validated by TraceC18.tla; PolicyDoc.tla enumerates the document grammar, every document fed to the real parser and a real scan",
          "TLA+ model checking + spec->code edge replay + trace validation; TLC-enumerated document grammar"),
+ "C09": ("fault_enumeration", "6 C09", "Durability.tla (Begin/Write/Commit/Ack with Crash enabled everywhere; invariants acknowledged=>durable and all-or-nothing; negative control SPLIT_COMMIT) model-checked by TLC; on the real engine a forked child dies (os._exit) before every SQL write/BEGIN/COMMIT event and after the commit of every state-changing operation, a fresh engine then opens the surviving file and every table is dumped raw; each experiment is validated by TraceC09.tla; SIGKILL at random instants during a workload",
+         "TLA+ model checking of the transaction discipline + exhaustive crash-point injection on the real engine validated by TLC"),
  "C11": ("model_checking", "6 C11", "TLC: RunRequest reads only (store, request); clause C11_placeholder on MC_C08; every request of random multi-client multi-version histories is compared with a fresh engine on a copy of the database (differential) and validated by TraceEngine.tla",
          "TLA+ model checking + trace validation; used-vs-fresh engine differential"),
 }
@@ -34,7 +36,6 @@ NOT_YET = {
  "C01": "check not built yet in this round (TTLV.tla / KmipSchema.tla planned, DESIGN 6 C01)",
  "C05": "check not built yet in this round",
  "C06": "check not built yet in this round",
- "C09": "check not built yet in this round",
  "C10": "check not built yet in this round",
  "C19": "check not built yet in this round",
  "C20": "check not built yet in this round",
